@@ -1,2 +1,2 @@
 """imports every sidecar contract module (registration side effect)"""
-from . import timer, connection, protocol, update, flow, attributes, attr_decoders, negotiated, healthcheck, configuration, processes, limit, textparser, aigp, capabilities, encoders, rte_sweep, neighbor  # noqa: F401
+from . import timer, connection, protocol, update, flow, attributes, attr_decoders, negotiated, healthcheck, configuration, processes, limit, textparser, aigp, capabilities, encoders, rte_sweep, neighbor, nlri_decoders, peerloop  # noqa: F401
